@@ -160,14 +160,17 @@ def res_token(fn):
         return "b:" + r.hex()
     if isinstance(r, int):
         return f"int:{r}"
+    # unexpected shapes (a None where bytes belong, a key that is not bytes ...) become explicit `other:` tokens: a verdict, never a crash of the harness
+    def hx_(x):
+        return x.hex() if isinstance(x, (bytes, bytearray)) else "other:" + repr(x)[:30].replace(" ", "_")
     if isinstance(r, dict):
-        return "dict:{" + ";".join(sorted("b:" + k.hex() + "=" + v.hex() for k, v in r.items())) + "}"
+        return "dict:{" + ";".join(sorted("b:" + hx_(k) + "=" + hx_(v) for k, v in r.items())) + "}"
     if isinstance(r, list):
-        return "keys:[" + ";".join("b:" + k.hex() for k in r) + "]"
+        return "keys:[" + ";".join("b:" + hx_(k) for k in r) + "]"
     if isinstance(r, tuple):
         if r == ("DEFAULT", "CASDEFAULT"):
             return "DEFAULTPAIR"
-        return "pair:" + r[0].hex() + ":" + r[1].hex()
+        return "pair:" + ":".join(hx_(x) for x in r)
     if r == "DEFAULT":
         return "DEFAULT"
     return repr(r)
